@@ -10,6 +10,7 @@ import (
 
 	"github.com/named-data/ndnd/fw/dispatch"
 	"github.com/named-data/ndnd/fw/face"
+	"github.com/named-data/ndnd/fw/mgmt"
 	"github.com/named-data/ndnd/fw/table"
 	enc "github.com/named-data/ndnd/std/encoding"
 	ndnlog "github.com/named-data/ndnd/std/log"
@@ -176,10 +177,16 @@ func Setup(fib string, s Scenario) {
 	table.VerifResetRib()
 	face.VerifResetFaceTable()
 	addedSlot = [4]uint64{}
+	// the real NLSR readvertiser is registered with the RIB, as with readvertise_nlsr=true
+	var rv *mgmt.NlsrReadvertiser
+	rv, rvTransport = mgmt.VerifNewReadvertiser()
+	table.VerifResetReadvertisers(rv)
 	for _, op := range s.Init {
 		op.Run(func() {})
 	}
 }
+
+var rvTransport *face.InternalTransport
 
 // Final is the observable final state of the tables.
 func Final() string {
@@ -196,6 +203,7 @@ func Final() string {
 	}
 	sort.Strings(ids)
 	b.WriteString(" | faces " + strings.Join(ids, ","))
+	fmt.Fprintf(&b, " | readvertised commands %d", rvTransport.VerifSendQueueLen())
 	return b.String()
 }
 
@@ -207,12 +215,15 @@ const (
 // All returns the scenario list: every pair and selected triples over thread programs that are
 // forced to collide on /a, /a/b and faces 1,2.
 func All(thorough bool) []Scenario {
-	init := []Op{RibAdd("/a", 1, 0, 1, CI), RibAdd("/a/b", 2, 0, 2, CI), RibAdd("/a", 2, 0, 5, 0)}
+	// the last two are client-origin routes (readvertised to NLSR) of two faces on one prefix
+	init := []Op{RibAdd("/a", 1, 0, 1, CI), RibAdd("/a/b", 2, 0, 2, CI), RibAdd("/a", 2, 0, 5, 0),
+		RibAdd("/r", 1, table.RouteOriginClient, 1, 0), RibAdd("/r", 2, table.RouteOriginClient, 1, 0)}
 	progs := map[string][]Op{
 		"M1": {RibAdd("/a/b", 1, 0, 3, CI)},
 		"M2": {RibRemove("/a", 1, 0)},
 		"M3": {RibAdd("/a", 3, 0, 1, CI)},
 		"M4": {RibRemove("/a/b", 2, 0), RibAdd("/a/b", 2, 0, 7, 0)},
+		"M5": {RibRemove("/r", 1, table.RouteOriginClient), RibAdd("/r", 3, table.RouteOriginClient, 2, 0)},
 		"X1": {FibInsert("/a", 4, 7)},
 		"X2": {FibRemove("/a", 1)},
 		"X3": {FibInsert("/a", 1, 9)},
